@@ -103,9 +103,7 @@ func vxCheckAddrResult(gotIP net.IP, gotPort int, canon net.IP, port int) {
 func vh_C06_xoraddr() {
 	m := vxFreshMsg()
 	ip, canon, family := vxAddr()
-	port := vxInt()
-	vxAssume(0 <= port)
-	vxAssume(port <= 65535)
+	port := vxLen(65535)
 	a := XORMappedAddress{IP: ip, Port: port}
 	t := AttrXORMappedAddress
 	var err error
@@ -137,9 +135,7 @@ func vh_C06_xoraddr() {
 func vh_C06_xoraddr_ref() {
 	m := vxFreshMsg()
 	_, canon, family := vxAddr()
-	port := vxInt()
-	vxAssume(0 <= port)
-	vxAssume(port <= 65535)
+	port := vxLen(65535)
 	v, n := refEncAddr(canon, family, port, true, m.TransactionID)
 	m.Add(AttrXORMappedAddress, v[:n])
 	d := vxRedecode(m)
@@ -152,9 +148,7 @@ func vh_C06_xoraddr_ref() {
 func vh_C06_mappedaddr() {
 	m := vxFreshMsg()
 	ip, canon, family := vxAddr()
-	port := vxInt()
-	vxAssume(0 <= port)
-	vxAssume(port <= 65535)
+	port := vxLen(65535)
 	which := vxChoose(4)
 	var err error
 	var t AttrType
@@ -202,9 +196,7 @@ func vh_C06_mappedaddr() {
 func vh_C06_mappedaddr_ref() {
 	m := vxFreshMsg()
 	_, canon, family := vxAddr()
-	port := vxInt()
-	vxAssume(0 <= port)
-	vxAssume(port <= 65535)
+	port := vxLen(65535)
 	v, n := refEncAddr(canon, family, port, false, m.TransactionID)
 	t := AttrType(vxU16())
 	vxAssume(t != 0x8020)
@@ -222,9 +214,7 @@ func vh_C06_text() {
 	which := vxChoose(4)
 	limit := [4]int{513, 763, 763, 763}[which]
 	t := [4]AttrType{AttrUsername, AttrRealm, AttrNonce, AttrSoftware}[which]
-	n := vxInt()
-	vxAssume(0 <= n)
-	vxAssume(n <= limit)
+	n := vxLen(limit)
 	val := vxBytes(n, n)
 	var err error
 	switch which {
@@ -285,9 +275,7 @@ func vh_C06_errorcode() {
 	code := vxInt()
 	vxAssume(300 <= code)
 	vxAssume(code <= 699)
-	n := vxInt()
-	vxAssume(0 <= n)
-	vxAssume(n <= 763)
+	n := vxLen(763)
 	reason := vxBytes(n, n)
 	err := ErrorCodeAttribute{Code: ErrorCode(code), Reason: reason}.AddTo(m)
 	vxAssert(err == nil, "code 300..699 with a reason within the limit is accepted")
